@@ -689,7 +689,7 @@ var evalFaults = []fault{
 }
 
 // multi-line material that precedes the fault
-var multiLine = []string{"text\nmore text\n", "a\r\nb\r\n", "{{ \"str\nwith\nnewlines\" }}", "{{-- a\ncomment\n--}}", "{{ 1 +\n 2 }}", "{{\n\"x\"\n}}\n",
+var multiLine = []string{"text\nmore text\n", "a\r\nb\r\n", "{{ \"str\nwith\nnewlines\" }}", "{{-- a\ncomment\n--}}", "{{--\nc\n--}}", "{{--\n\n--}}\n", "{{--\r\nc--}}", "{{-- c\n--}}", "{{ 1 +\n 2 }}", "{{\n\"x\"\n}}\n",
 	"@if(true)\nyes\n@end", "@each(q in [1,\n2])\n{{ q }}@end\n", "one line ", "", "\n\n\n", "{{ x = \"a\nb\" }}", "\\{{ not code\n", "<p>\n</p>\n"}
 
 func (g *Gen) preamble() string {
